@@ -190,11 +190,11 @@ theorem rows_disjoint_lt (g np : Nat) (hnp : 2 ∣ np) (hw : 3 * np ≤ g) (off 
   · have : (g : Int) ≤ (k - k') * (g : Int) := le_mul_of_one_le_left hgi.le (by omega)
     omega
 
-/-- **rows_disjoint.**  Even number of stripes, each at least three cells wide, offset between 0 and one cell:
+/-- (core of `rows_disjoint`, Props/C07.lean)  Even number of stripes, each at least three cells wide, offset between 0 and one cell:
 two particles of distinct stripes of equal parity (the stripes one loop of `_tsc_parallel` processes
 concurrently) touch disjoint sets of rows, also across the periodic boundary and with the last stripe
 closed at `g`. -/
-theorem rows_disjoint (g np : Nat) (hnp : 2 ∣ np) (hw : 3 * np ≤ g) (off : ℚ) (ho0 : 0 ≤ off) (ho1 : off ≤ 1)
+theorem rows_disjoint_core (g np : Nat) (hnp : 2 ∣ np) (hw : 3 * np ≤ g) (off : ℚ) (ho0 : 0 ≤ off) (ho1 : off ≤ 1)
     (p p' : ℚ) (hp0 : 0 ≤ p) (hpg : p ≤ g) (hp0' : 0 ≤ p') (hpg' : p' ≤ g)
     (hs : stripeOf np g p ≠ stripeOf np g p')
     (hpar : stripeOf np g p % 2 = stripeOf np g p' % 2) :
